@@ -30,12 +30,16 @@ Families ==
 
 Ops == {[op |-> "Merge", i |-> i] : i \in {"A", "B", "C"}} \cup {[op |-> "Unmerge", i |-> i] : i \in {"A", "B", "C"}}
        \cup {[op |-> "Snapshot", k |-> "k1"], [op |-> "Rollback", k |-> "k1"]}
+       \cup {[op |-> "GetDelegations", x |-> x, i |-> i, t |-> t] : x \in {"a1", "b1", "s1", "s2"}, i \in {"A", "B", "C"}, t \in {"cap", "lab"}}
+       \cup {[op |-> "Plug"], [op |-> "Unplug"], [op |-> "GetBQM"]}
 \* unmerging a model that is not merged, and merging one twice, are outside the interface
 Legal(S, o) == CASE o.op = "Unmerge" -> \E x \in DOMAIN S.cbm.n : o.i \in S.cbm.n[x].adms
                  [] o.op = "Merge" -> o.i \in DOMAIN S.adm /\ ~\E x \in DOMAIN S.cbm.n : o.i \in S.cbm.n[x].adms
                  [] o.op = "Rollback" -> o.k \in DOMAIN S.snaps
                  \* a snapshot is a clone: cloning a model without elements is the (recorded) clone-of-missing-graph case
                  [] o.op = "Snapshot" -> DOMAIN S.cbm.n # {}
+                 [] o.op = "GetDelegations" -> o.x \in DOMAIN S.cbm.n /\ o.i \in DOMAIN S.adm
+                 [] o.op = "GetBQM" -> DOMAIN S.cbm.n # {} \/ S.plug
                  [] OTHER -> TRUE
 
 Init == \E f \in Families :
